@@ -1103,6 +1103,22 @@ def _ended(conns):
     return False
 
 
+def harness_trouble(cases, impl, model):
+    """A kind of case none of whose members could be executed is no longer tied to the code, however few they are."""
+    import re
+    by_kind = {}
+    for c in cases:
+        i = impl.get(c.id)
+        k = c.meta.get("kind", "-")
+        n, bad, ids = by_kind.get(k, (0, 0, []))
+        trouble = i is None or re.match(r"\(L \(N 93\)|\(L \(N 96\)", i) is not None
+        by_kind[k] = (n + 1, bad + (1 if trouble else 0), ids + ([c.id] if trouble else []))
+    dead = ["%s (%d cases: %s)" % (k, n, ", ".join(ids[:4])) for k, (n, bad, ids) in sorted(by_kind.items()) if n >= 2 and bad == n and k != "malformed"]
+    if dead:
+        return "no case of kind " + "; ".join(dead) + " could be executed"
+    return None
+
+
 def signature(c, m):
     if c.comp in ("limiter.conc", "limiter.concbound"):
         return "concurrent"
